@@ -246,6 +246,67 @@ def _stmt_index(body, node) -> int:
     return -1
 
 
+def _delta_alias_rule(prog: Program, L: Ledger) -> None:
+    """R8: between two adaptations the stored delta is what update_delta computed: no method changes, in place, an object
+    that may BE self.delta (a local bound to it, or to the value of a helper that can return it uncopied)."""
+    L.rule("R8", "no method of the force-bias drivers changes in place a local that may be the stored delta itself (bound to self.delta, or to a helper's return value that can be self.delta uncopied)")
+    fb = prog.cls("ForceBias")
+    n = 0
+
+    def is_delta(e):
+        return isinstance(e, ast.Attribute) and e.attr in ("delta", "_delta") and norm(e.value) == "self"
+
+    def returns_delta(ci, mname, depth=0):
+        m = prog.lookup_method(ci, mname)
+        if m is None or depth > 2:
+            return False
+        for r in walk_no_nested(m.node):
+            if isinstance(r, ast.Return) and r.value is not None and may_be_delta(ci, m, r.value, r.lineno, depth + 1):
+                return True
+        return False
+
+    def may_be_delta(ci, fi, e, line, depth=0):
+        if is_delta(e):
+            return True
+        if isinstance(e, ast.IfExp):
+            return may_be_delta(ci, fi, e.body, line, depth) or may_be_delta(ci, fi, e.orelse, line, depth)
+        if isinstance(e, ast.Call) and isinstance(e.func, ast.Attribute) and norm(e.func.value) == "self" and not e.args and not e.keywords:
+            return returns_delta(ci, e.func.attr, depth)
+        if isinstance(e, ast.Call) and norm(e.func) in ("np.asarray", "np.asanyarray") and e.args:
+            return may_be_delta(ci, fi, e.args[0], line, depth)
+        if isinstance(e, ast.Name):
+            binds = [st for st in walk_no_nested(fi.node) if isinstance(st, ast.Assign) and len(st.targets) == 1 and isinstance(st.targets[0], ast.Name)
+                     and st.targets[0].id == e.id and st.lineno < line]
+            if binds:
+                last = max(binds, key=lambda st: st.lineno)
+                return may_be_delta(ci, fi, last.value, last.lineno, depth)
+        return False
+
+    for ci in prog.subclasses(fb):
+        for fi in ci.methods.values():
+            for st in walk_no_nested(fi.node):
+                tgt = None
+                if isinstance(st, ast.AugAssign):
+                    tgt = st.target
+                elif isinstance(st, ast.Assign) and len(st.targets) == 1 and isinstance(st.targets[0], ast.Subscript):
+                    tgt = st.targets[0]
+                outs = [k.value for c in ([st.value] if isinstance(st, ast.Expr) and isinstance(st.value, ast.Call) else []) for k in c.keywords if k.arg == "out"]
+                for t in ([tgt] if tgt is not None else []) + outs:
+                    base = t
+                    while isinstance(base, ast.Subscript):
+                        base = base.value
+                    if not isinstance(base, ast.Name):
+                        continue
+                    n += 1
+                    if may_be_delta(ci, fi, base, st.lineno):
+                        L.violation("R8", f"{fi.qualname}:{base.id}", f"{fi.module.relpath}:{st.lineno}",
+                                    f"`{norm(st)[:80]}` changes `{base.id}` in place, and `{base.id}` may be the stored delta itself (it is bound to self.delta or to a helper that can return it uncopied): after the step the stored delta is no longer the value the adaptation computed",
+                                    "array delta (forces scheme): delta after a step is delta·zeta, outside [min_delta, max_delta]", base.id)
+                    else:
+                        L.ok("R8", f"{fi.qualname}:{base.id}@{norm(st)[:40]}", f"{fi.module.relpath}:{st.lineno}")
+    L.floor("in-place statements on locals in the force-bias drivers", n, 3)
+
+
 def run(prog: Program, L: Ledger) -> None:
     L.explanation = (
         "C18 decided symbolically on AdaptiveForceBias: each update function found in the update_functions table is translated to a "
@@ -260,6 +321,7 @@ def run(prog: Program, L: Ledger) -> None:
     L.rule("R3", "delta = min_delta + (max_delta − min_delta)·update(variation)")
     L.rule("R4", "without committee data each variation-coefficient getter returns reference_variance (broadcast)")
     L.rule("R5", "step() calls update_delta() before the inherited force-bias step on every path")
+    _delta_alias_rule(prog, L)
     L.rule("R7", "update functions and schemes never change an argument in place (directly or through np.asarray / a view)")
     L.rule("R6", "every scheme returns a non-negative variation coefficient (structural sign analysis: spreads, absolute values, counts and their sums / products / quotients)")
     L.assume("reference_variance is configured non-negative")
